@@ -8,7 +8,10 @@ use crate::http::{Request, Response, StatusCode};
 
 use std::error::Error;
 use std::io::Write;
+#[cfg(not(humphrey_verif))]
 use std::net::{SocketAddr, TcpStream, ToSocketAddrs};
+#[cfg(humphrey_verif)]
+use humsim::net::{SocketAddr, TcpStream, ToSocketAddrs};
 
 #[cfg(feature = "tls")]
 use rustls::{Certificate, ClientConfig, ClientConnection, RootCertStore, StreamOwned};
